@@ -1044,11 +1044,19 @@ func ruleC06g(c *Ctx) []*report.Result {
 		r.Undecide("override installers not found")
 		return []*report.Result{r}
 	}
+	calledByPrinter := map[*ssa.Function]bool{}
+	for _, fn := range c.P.ModuleFunctions() {
+		if recvNamed(fn) == tPP {
+			for _, g := range c.staticCallees(fn) {
+				calledByPrinter[g] = true
+			}
+		}
+	}
 	tests, declass := 0, 0
 	for _, fn := range c.P.ModuleFunctions() {
 		// printer methods, and the classification functions of the
 		// hand-written code (which report the decision as a result)
-		pure := recvNamed(fn) != tPP && fn.Signature.Recv() == nil && pkgPathOf(fn) == pkgRfmt && handWritten(c, fn) && fn.Parent() == nil
+		pure := recvNamed(fn) != tPP && fn.Signature.Recv() == nil && pkgPathOf(fn) == pkgRfmt && handWritten(c, fn) && fn.Parent() == nil && fn.Object() != nil && !fn.Object().Exported() && calledByPrinter[fn]
 		if (recvNamed(fn) != tPP && !pure) || fn.Blocks == nil {
 			continue
 		}
